@@ -115,6 +115,8 @@ def py_repr(v):
         return repr(v.original)
     if isinstance(v, list):
         return '[' + ', '.join(py_repr(x) for x in v) + ']'
+    if isinstance(v, tuple):
+        return '(' + ', '.join(py_repr(x) for x in v) + (',)' if len(v) == 1 else ')')
     if isinstance(v, dict) and '__obj__' in v:
         return obj_repr(v)
     if isinstance(v, dict):
@@ -128,17 +130,29 @@ OBJ_SIGS = {
     'Auto2': dict(args=[('a', None, True), ('c', 5, False)], ignore={'verbose', 'debug'}, dpdv={'c'}),
     'Auto3': dict(args=[('a', None, True), ('pad', 0, False)], ignore={'verbose', 'debug'}, dpdv=set()),
     'AutoBoth': dict(args=[('cols', None, True)], ignore={'verbose', 'debug'}, dpdv=set()),
+    'AutoRaw': dict(args=[('path', None, True)], ignore={'verbose', 'debug'}, dpdv=set()),
+    'AutoTuple': dict(args=[('a', None, True), ('size', (224, 224), False), ('pair', ((1, 'x'), [2, (3,)]), False)], ignore={'verbose', 'debug'}, dpdv=set()),
 }
 
 
 def obj_bind(v):
     """bound constructor arguments of an object definition {__obj__, args?, kwargs?} (for Auto*/Plain1/Hand1)"""
     cls = v['__obj__']
+    if cls == 'AutoVar':   # def __init__(self, a, **options)
+        kw = dict(v.get('kwargs') or {})
+        args = list(v.get('args', []))
+        if args:
+            kw['a'] = args[0]
+        if 'a' not in kw:
+            raise Expected('object-missing-arg', 'AutoVar.a')
+        return {'a': kw.pop('a'), 'options': kw}
     sig = {'Auto1': [('a', None, True), ('b', 0, False), ('verbose', False, False)],
            'Auto2': [('a', None, True), ('c', 5, False)],
            'Auto3': [('a', None, True), ('pad', 0, False)],
            'AutoSet': [('items', None, True)],
            'AutoBoth': [('cols', None, True)],
+           'AutoRaw': [('path', None, True)],
+           'AutoTuple': [('a', None, True), ('size', (224, 224), False), ('pair', ((1, 'x'), [2, (3,)]), False)],
            'Plain1': [('a', None, True), ('b', 0, False)],
            'Hand1': [('a', None, True)]}[cls]
     bound = {}
@@ -168,6 +182,9 @@ def obj_repr(v):
                 continue
             parts[name] = b[name]
         return f'{cls}(' + ', '.join(f'{k}={py_repr(x)}' for k, x in sorted(parts.items())) + ')'
+    if cls == 'AutoVar':
+        b = obj_bind(v)
+        return f'AutoVar(a={py_repr(b["a"])}, options={py_repr(b["options"])})'
     if cls == 'Hand1':
         return f'Hand1<{py_repr(obj_bind(v)["a"])}>'
     if cls == 'Plain1':
@@ -183,7 +200,9 @@ def obj_repr(v):
 def obj_state(v):
     b = obj_bind(v)
     cls = v['__obj__']
-    keys = {'Auto1': ['a', 'b'], 'Auto2': ['a', 'c'], 'Auto3': ['a', 'pad'], 'AutoSet': ['items'], 'AutoBoth': ['cols'], 'Plain1': ['a', 'b'], 'Hand1': ['a']}[cls]
+    if cls == 'AutoTuple':
+        return {'__obj__': cls, 'state': {'a': term_value(b['a']), 'size': repr(b['size']), 'pair': repr(b['pair'])}}
+    keys = {'Auto1': ['a', 'b'], 'Auto2': ['a', 'c'], 'Auto3': ['a', 'pad'], 'AutoSet': ['items'], 'AutoBoth': ['cols'], 'AutoRaw': ['path'], 'AutoVar': ['a', 'options'], 'Plain1': ['a', 'b'], 'Hand1': ['a']}[cls]
     return {'__obj__': cls, 'state': {k: term_value(b[k]) for k in keys}}
 
 
